@@ -82,10 +82,10 @@ def gen_pipeline(rng):
     return named
 
 
-def wire(named):
+def wire(named, ids=None):
     out = []
     for i, (n, k, cfg) in enumerate(named):
-        out.append([i, pu.KIND_CODE[k], FM.get(cfg.get("filter_method"), 0), cfg.get("window_size", 5),
+        out.append([i if ids is None else ids[n], pu.KIND_CODE[k], FM.get(cfg.get("filter_method"), 0), cfg.get("window_size", 5),
                     cfg.get("filter_size", 3), Fraction(cfg.get("sigma_space", 1.0)), cfg.get("step", 1)])
     return out
 
@@ -110,24 +110,29 @@ def oracle(named, rows, cols):
     return cum, non, glob
 
 
-def real_margins(named, rows, cols):
+def real_margins(named, rows, cols, before=None, ids=None):
+    """margins reported after check_conf of `named`; with `before`, the SAME machine object has checked the
+    pipeline `before` first"""
     from pandora.state_machine import PandoraMachine
 
-    need2d = named and named[0][2].get("step", 1) != 1
+    need2d = any(p and p[0][2].get("step", 1) != 1 for p in (named, before or []))
     if need2d:
         sys.modules["pandora2d"] = types.ModuleType("pandora2d")
     try:
         m = PandoraMachine()
+        if before is not None:
+            m.check_conf({"pipeline": {n: dict(c) for n, _, c in before}},
+                         pu.meta_dataset(rows, cols, (-2, 2)), pu.meta_dataset(rows, cols, None))
         cfg = {"pipeline": {n: dict(c) for n, _, c in named}}
         m.check_conf(cfg, pu.meta_dataset(rows, cols, (-2, 2)), pu.meta_dataset(rows, cols, None))
         d = m.margins.to_dict()
     finally:
         if need2d:
             sys.modules.pop("pandora2d", None)
-    idx = {n: i for i, (n, _, _) in enumerate(named)}
+    idx = ids if ids is not None else {n: i for i, (n, _, _) in enumerate(named)}
 
     def conv(dd):
-        return [[idx[k], [v["left"], v["up"], v["right"], v["down"]]] for k, v in dd.items()]
+        return [[idx.get(k, k), [v["left"], v["up"], v["right"], v["down"]]] for k, v in dd.items()]
 
     g = d["global margins"]
     return [conv(d["cumulative margins"]), conv(d["non-cumulative margins"]),
@@ -204,4 +209,58 @@ def run(ctx):
                 ctx.violation("not_monotone", f"global margins decreased from {base[2]} to {got[2]} when a step was added",
                               rep)
             ctx.count("monotonicity_pairs")
-    ctx.gen_obligations = ["tables_ok Gen.Margins.gen_margin_tables = true (vm_compute)"]
+    machine_histories(ctx, model, [c for c in cases if c[3] in ("base", "replay2")])
+    ctx.gen_obligations = ["tables_ok Gen.Margins.gen_margin_tables = true (vm_compute)",
+                           "gen_check_resets_margins = true (check_conf starts its first round with "
+                           "self.margins = GlobalMargins(); vm_compute on the regenerated datum)"]
+
+
+def machine_histories(ctx, model, base_cases):
+    """ONE machine object checks pipeline A then pipeline B: the margins reported for B are those of a machine
+    that has never been used (model: machine_check_margins with the regenerated reset flag; spec: documented table)"""
+    rng = ctx.rng
+    pairs = []
+    if ctx.replay_case is not None:
+        rc = ctx.replay_case
+        if "before" not in rc:
+            return
+        pairs.append(([tuple(x) for x in rc["before"]], [tuple(x) for x in rc["named"]], rc["rows"], rc["cols"]))
+    else:
+        fa = [("matching_cost", "matching_cost", {"matching_cost_method": "sad", "window_size": 5, "subpix": 1, "step": 1}),
+              ("disparity", "disparity", {"disparity_method": "wta"}),
+              ("filter", "filter", {"filter_method": "median", "filter_size": 3})]
+        pairs.append((fa, fa[:2], 9, 20))
+        pairs.append((fa[:2] + [("validation", "validation", {"validation_method": "cross_checking_accurate"}), fa[2]],
+                      fa[:2] + [("filter.b", "filter", {"filter_method": "median", "filter_size": 5})], 9, 20))
+        n = 80 if ctx.tier == "quick" else 1500
+        for _ in range(n):
+            a, b = rng.choice(base_cases), rng.choice(base_cases)
+            pairs.append((a[0], b[0], b[1], b[2]))
+    batch = []
+    idss = []
+    for a, b, rows, cols in pairs:
+        ids = {}
+        for nme, _, _ in list(b) + list(a):
+            ids.setdefault(nme, len(ids))
+        idss.append(ids)
+        batch.append((2, [[rows, cols], wire(a, ids), wire(b, ids)]))
+    mres = model.batch(batch)
+    for (a, b, rows, cols), ids, mr in zip(pairs, idss, mres):
+        rep = {"before": [list(x) for x in a], "named": [list(x) for x in b], "rows": rows, "cols": cols}
+        ctx.case(("history", repr(rep)))
+        ctx.traces += 1
+        ctx.count("machine_history_pairs")
+        try:
+            got, _ = real_margins(b, rows, cols, before=a, ids=ids)
+        except Exception as exc:  # pylint: disable=broad-except
+            got = ["EXC", pu.exc_class(exc)]
+        want_model = mr[0] if mr and mr != [-2] else "KEYERROR"
+        cum, non, glob = oracle(b, rows, cols)
+        want = [[[ids[b[i][0]], [v] * 4] for i, v in cum], [[ids[b[i][0]], [v] * 4] for i, v in non], [glob] * 4]
+        if got != want:
+            ctx.violation("machine_history_stale_margins",
+                          f"one machine checked {[x[0] for x in a]} then {[x[0] for x in b]} ({rows}x{cols}): margins "
+                          f"reported for the second pipeline {got} differ from the documented ones {want} "
+                          f"(ids: {ids})", rep)
+        if got != want_model:
+            ctx.mismatch("margins_machine_history", rep, got, want_model)
